@@ -519,7 +519,11 @@ func c26Step(cx *c26Ctx, st *c26State, ops string) (viols []viol) {
 	}
 
 	m.A[o.Acct] = view
-	cx.class("tx:ok", nil)
+	if anyOpen {
+		cx.class("tx:ok:with-open-call", nil)
+	} else {
+		cx.class("tx:ok", nil)
+	}
 	viols = append(viols, c26Observe(cx, st, sigPath)...)
 	return
 }
